@@ -128,8 +128,8 @@ def h_op(op):
 
 
 def to_harness(c):
-    lines = ["case %s" % c["id"], "spec %d %d %d %d %d %d" % tuple(c["spec"]),
-             "snap_each %d" % (1 if c["snap_each"] else 0)]
+    lines = ["case %s" % c["id"]] + (["wscale %d" % c["wscale"]] if c.get("wscale") else []) + [
+             "spec %d %d %d %d %d %d" % tuple(c["spec"]), "snap_each %d" % (1 if c["snap_each"] else 0)]
     lines += [h_op(o) for o in c["ops"]]
     lines.append("end")
     return "\n".join(lines)
@@ -262,6 +262,14 @@ def derived_battery(r, names):
 def gen_cases(kind, seed, n):
     """kind in {c01, c02, c03, c09, c15}"""
     r = SplitMix(seed * 1000003 + {"c01": 1, "c02": 2, "c03": 3, "c09": 9, "c15": 15}[kind])
+    # dyadic weight scale (applied inside the harness to every weight read and undone on every weight-valued
+    # observation, exact in binary64; see tools/centgen.py): only for histories whose weights are all real
+    r2 = SplitMix(seed * 7919 + {"c01": 101, "c02": 202, "c03": 303, "c09": 909, "c15": 1515}[kind])
+
+    def scaled(c, wmode):
+        if wmode == "real" and r2.below(100) < 20:
+            c["wscale"] = r2.pick([-60, -3, 40])
+        return c
     cases = []
     for i in range(n):
         sp = spec_for(r, i + r.below(96) * (i >= 96))
@@ -276,13 +284,15 @@ def gen_cases(kind, seed, n):
         elif kind == "c03":
             wmode = "nan" if r.below(4) == 0 else "real"
             ops = gen_mutations(r, names, 2 + r.below(9), wmode=wmode, collide=60)
-            cases.append({"id": "h%d" % i, "spec": sp, "snap_each": True, "ops": ops, "wmode": wmode})
+            cases.append(scaled({"id": "h%d" % i, "spec": sp, "snap_each": True, "ops": ops, "wmode": wmode}, wmode))
         elif kind == "c09":
-            ops = gen_mutations(r, names, 2 + r.below(9), wmode=r.pick(["nan", "real", "real"]), collide=45)
-            cases.append({"id": "h%d" % i, "spec": sp, "snap_each": False,
-                          "ops": ops + [("view",)] + degree_battery(r, names)})
+            wmode = r.pick(["nan", "real", "real"])
+            ops = gen_mutations(r, names, 2 + r.below(9), wmode=wmode, collide=45)
+            cases.append(scaled({"id": "h%d" % i, "spec": sp, "snap_each": False,
+                                 "ops": ops + [("view",)] + degree_battery(r, names)}, wmode))
         elif kind == "c15":
-            ops = gen_mutations(r, names, 2 + r.below(8), wmode=r.pick(["nan", "real", "mixed"]))
-            cases.append({"id": "h%d" % i, "spec": sp, "snap_each": False,
-                          "ops": ops + [("snap",)] + derived_battery(r, names)})
+            wmode = r.pick(["nan", "real", "mixed"])
+            ops = gen_mutations(r, names, 2 + r.below(8), wmode=wmode)
+            cases.append(scaled({"id": "h%d" % i, "spec": sp, "snap_each": False,
+                                 "ops": ops + [("snap",)] + derived_battery(r, names)}, wmode))
     return cases
